@@ -11,10 +11,11 @@ Local Open Scope string_scope.
 
 Definition labels := list (string * string).      (* sorted by name; lset/lget of Model/Inject.v *)
 
-Fixpoint ldel (k : string) (m : labels) : labels :=
-  match m with [] => [] | (k', v) :: r => if String.eqb k k' then r else (k', v) :: ldel k r end.
+(* label sets are association lists in no particular order, one entry per name, no empty values; a set is brought
+   into name order (of_labels) only where it is shown (visible labels) or shipped *)
+Definition ldel (k : string) (m : labels) : labels := filter (fun kv => negb (String.eqb (fst kv) k)) m.
 (* labels.Builder.Set: an empty value deletes *)
-Definition lb_set (k v : string) (m : labels) : labels := if String.eqb v "" then ldel k m else lset k v m.
+Definition lb_set (k v : string) (m : labels) : labels := if String.eqb v "" then ldel k m else (k, v) :: ldel k m.
 Definition lval (k : string) (m : labels) : string := match lget k m with Some v => v | None => "" end.   (* Labels.Get *)
 
 Definition has_prefix (p s : string) : bool := String.prefix p s.
@@ -38,8 +39,8 @@ Variable interval_ok : string -> string -> bool.   (* both durations parse, are 
 Definition set_if_empty (k v : string) (orig m : labels) : labels := if String.eqb (lval k orig) "" then lb_set k v m else m.
 Definition set_params (ps : list (string * list string)) (m : labels) : labels :=
   fold_left (fun m kv => match snd kv with v0 :: _ => lb_set ("__param_" ++ fst kv) v0 m | [] => m end) ps m.
-Definition del_meta (orig m : labels) : labels :=
-  fold_left (fun m kv => if has_prefix "__meta_" (fst kv) then ldel (fst kv) m else m) orig m.
+(* every __meta_ label of the relabelled set is deleted from the builder (which holds the same names) *)
+Definition del_meta (m : labels) : labels := filter (fun kv => negb (has_prefix "__meta_" (fst kv))) m.
 
 Definition populate (with_interval : bool) (c : jobcfg) (d : labels) : outcome :=
   let m0 := set_if_empty "job" (jc_name c) d d in
@@ -63,28 +64,31 @@ Definition populate (with_interval : bool) (c : jobcfg) (d : labels) : outcome :
       let addr := a ++ suffix in
       if negb (addr_ok addr) then Failed else
       if with_interval && negb (interval_ok (lval "__scrape_interval__" l) (lval "__scrape_timeout__" l)) then Failed else
-      let m3 := del_meta l (lb_set "__address__" addr l) in
+      let m3 := del_meta (lb_set "__address__" addr l) in
       Active (if String.eqb (lval "instance" l) "" then lb_set "instance" addr m3 else m3)
     end
   end.
 End Populate.
 
 (* what Prometheus shows of a target: labels without the reserved prefix *)
-Definition visible (l : labels) : labels := filter (fun kv => negb (has_prefix "__" (fst kv))) l.
+Definition visible (l : labels) : labels := of_labels (filter (fun kv => negb (has_prefix "__" (fst kv))) l).
 
-(* Target.URL(): the job's params, first value overridden by a __param_<k> label; new keys appended; sorted by key *)
-Fixpoint qset (k : string) (f : list string -> list string) (q : list (string * list string)) : list (string * list string) :=
-  match q with
-  | [] => [(k, f [])]
-  | (k', vs) :: r => if String.eqb k k' then (k, f vs) :: r else if String.ltb k k' then (k, f []) :: q else (k', vs) :: qset k f r
-  end.
+(* Target.URL(): the job's params, first value overridden by a __param_<k> label (a new key gets the single value);
+   url.Values.Encode lists the keys in order: sort_query *)
+Definition qval (k : string) (q : list (string * list string)) : list string :=
+  match find (fun kv => String.eqb (fst kv) k) q with Some (_, vs) => vs | None => [] end.
+Definition qset (k : string) (f : list string -> list string) (q : list (string * list string)) : list (string * list string) :=
+  (k, f (qval k q)) :: filter (fun kv => negb (String.eqb (fst kv) k)) q.
+Fixpoint qinsert (x : string * list string) (q : list (string * list string)) : list (string * list string) :=
+  match q with [] => [x] | y :: r => if String.ltb (fst x) (fst y) then x :: q else y :: qinsert x r end.
+Definition sort_query (q : list (string * list string)) : list (string * list string) := fold_right qinsert [] q.
 Definition url_query (ps : list (string * list string)) (l : labels) : list (string * list string) :=
   fold_left (fun q kv => if has_prefix "__param_" (fst kv)
                          then qset (drop_prefix "__param_" (fst kv)) (fun vs => snd kv :: tl vs) q else q) l ps.
 Record url := { u_scheme : string; u_host : string; u_path : string; u_query : list (string * list string) }.
 Definition target_url (ps : list (string * list string)) (l : labels) : url :=
   {| u_scheme := lval "__scheme__" l; u_host := lval "__address__" l; u_path := lval "__metrics_path__" l;
-     u_query := filter (fun kv => match snd kv with [] => false | _ => true end) (url_query ps l) |}.
+     u_query := sort_query (filter (fun kv => match snd kv with [] => false | _ => true end) (url_query ps l)) |}.
 
 (* ---- the sharded route ---- *)
 Definition invalid_prefix : string := "__invalid_label_".
@@ -112,7 +116,7 @@ Fixpoint all_chars (f : Ascii.ascii -> bool) (s : string) : bool :=
 Definition valid_name (s : string) : bool :=
   match s with EmptyString => false | String c r => is_name_start c && all_chars is_name_char r end.
 Definition support_invalid (l : labels) : labels :=
-  of_labels (map (fun kv => if valid_name (fst kv) then kv else (invalid_prefix ++ fst kv, snd kv)) l).
+  map (fun kv => if valid_name (fst kv) then kv else (invalid_prefix ++ fst kv, snd kv)) l.
 Definition shipped (ps : list (string * list string)) (l : labels) : labels := support_invalid (without_config_param ps l).
 
 (* the relabeling of the generated job: labelmap __invalid_label_(.+) -> $1 (iterates the set it was given) *)
@@ -148,9 +152,13 @@ Definition shard_cfg (c : jobcfg) : jobcfg :=
      jc_interval := jc_interval c; jc_timeout := jc_timeout c |}.
 Definition coordinator_labels (c : jobcfg) (d : labels) : outcome :=
   populate relabel needs_port addr_ok interval_ok false c d.
+(* target2targetGroup (Model/Inject.v to_group; here without the name order, which nothing below depends on): the
+   shipped labels, scheme label forced to http, the three routing parameters *)
+Definition group_labels (name : string) (hash : N) (sh : labels) : labels :=
+  let sch := if String.eqb (lval "__scheme__" sh) "" then "http" else lval "__scheme__" sh in
+  lb_set "__param__hash" (dec hash) (lb_set "__param__jobName" name (lb_set "__param__scheme" sch (lb_set "__scheme__" "http" sh))).
 Definition sharded_from (c : jobcfg) (hash : N) (l : labels) : option (labels * url) :=
-  let g := to_group (jc_name c) {| t_hash := hash; t_labels := shipped (jc_params c) l |} in
-  match populate labelmap_invalid needs_port addr_ok interval_ok true (shard_cfg c) (g_labels g) with
+  match populate labelmap_invalid needs_port addr_ok interval_ok true (shard_cfg c) (group_labels (jc_name c) hash (shipped (jc_params c) l)) with
   | Active l' => Some (visible l', translate_url (target_url (jc_params c) l'))
   | _ => None
   end.
